@@ -392,6 +392,34 @@ def backlog (s : State) (h : Nat) : Out :=
     | none => { res := .err }
     | some bl => { best := best, bl := bl }
 
+/-! the lock scope inside one write: `newFilterHeadersMtx` is taken to raise the tip; a backlog
+request (`NotificationsSinceHeight`) needs its read side.  `releaseFirst` is the order found in
+the source (`Gen.BlockMgr.cfUnlockBeforeNotify`). -/
+
+inductive CfLockStep where
+  | acquire
+  | raiseTip
+  | release
+  | emit (id height : Nat)
+deriving DecidableEq, Repr
+
+def cfLockEmits (log : List Nat) (start : Nat) : Nat → List CfLockStep
+  | 0 => []
+  | n + 1 => .emit (log.getD start 0) start :: cfLockEmits log (start + 1) n
+
+def cfLockSteps (releaseFirst : Bool) (log : List Nat) (start n : Nat) : List CfLockStep :=
+  if releaseFirst then [.acquire, .raiseTip, .release] ++ cfLockEmits log start n
+  else [.acquire, .raiseTip] ++ cfLockEmits log start n ++ [.release]
+
+/-- run the micro-steps: for each emission (height, whether a backlog request is enabled at that
+moment, i.e. the writer does not hold the mutex while it waits for the event to be taken) -/
+def cfLockRun : Bool → List CfLockStep → List (Nat × Bool)
+  | _, [] => []
+  | _, .acquire :: rest => cfLockRun true rest
+  | _, .release :: rest => cfLockRun false rest
+  | held, .raiseTip :: rest => cfLockRun held rest
+  | held, .emit _ h :: rest => (h, !held) :: cfLockRun held rest
+
 /-- the backlog a subscriber gets who registers right after the `k`-th event of the write
 `cfWrite s stop n true` (1 ≤ k ≤ n): computed from the in-memory tip as it is at that moment -/
 def cfProbe (tipFirst : Bool) (s : State) (stop n h : Nat) : Out :=
